@@ -14,10 +14,12 @@ import gc
 ID = "C14"
 LEVEL = "exploration"
 RULE = ("random prefixes (1-3 rounds of creating 1-20 instances of the ontology classes, relating them through every "
-        "write form, dropping all of them, gc + sweep) followed by 1-10 assertions (single-valued assignment, container "
+        "write form, dropping all of them, gc, and a sweep either at once, only after the new instances exist, between "
+        "the assertions, by a query, or never) followed by 1-10 assertions (single-valued assignment, container "
         "assignment, append / add) on freshly created instances created in a random order; each case runs the suffix "
         "with and without the prefix.  Non-trivial = the prefix related and reclaimed at least one pair and the suffix "
-        "asserts at least one relation; distinct = (prefix round sizes, creation order of the suffix objects, suffix "
+        "asserts at least one relation; the compared state is graph relations + field values + what domain-less queries "
+        "report for each live instance; distinct = (prefix round sizes, creation order of the suffix objects, suffix "
         "operation kinds)")
 ASSUMPTIONS = ["run A (no prefix) on a cleared graph in the same process stands for 'a fresh graph'",
                "the relation-index audit reads SymbolGraph internals; when they are absent it is skipped and counted"]
@@ -87,7 +89,7 @@ def gen(rng, tier, ctx):
         if not any(n[0] == "org" for n in names):
             names.append(["org", "Org", "o0"])
         suffix = [[k, i, j, i + j] for k, i, j in last["relate"]][:12] or suffix
-    return {"prefix": prefix, "objects": names, "suffix": suffix, "sweep": rng.choice(["sweep", "sweep", "sweep", "nosweep"])}
+    return {"prefix": prefix, "objects": names, "suffix": suffix, "sweep": rng.choice(["sweep", "sweep", "sweep", "nosweep", "late", "late", "mid", "query"])}
 
 
 def witnesses():
@@ -163,6 +165,25 @@ def observe(om, named, sg):
             if o.head_of is not None:
                 fields.add((n, "head_of", name_of.get(id(o.head_of), "<foreign>")))
     return rel, fields
+
+
+def census(om, named, C):
+    """what a domain-less query sees of the named (live) instances: (class, name, how often)"""
+    from krrood.entity_query_language.entity import entity, let
+    from krrood.entity_query_language.quantify_entity import an
+    from vlib import holders
+    name_of = {id(o): n for n, o in named.items()}
+    out = set()
+    for T in (om.Org, om.Person, om.Chief):
+        seen = {}
+        for n in [name_of.get(id(r)) for r in an(entity(let(T, None))).evaluate()]:
+            if n is not None:
+                seen[n] = seen.get(n, 0) + 1
+        for n, k in seen.items():
+            out.add((T.__name__, n, k))
+        C["census_queries"] += 1
+    holders.clear_known_holders()      # evaluated queries keep what they ranged over alive
+    return out
 
 
 def audit_index(sg, C, problems, label):
@@ -253,13 +274,25 @@ def run_suffix(spec, om, with_prefix, C, problems):
     used = set()
     n_assert = 0
     errors = []
-    for kind, i, j, k in spec["suffix"]:
+    # the garbage of the prefix may also be swept only now: the new instances already exist and may have been given
+    # the ids / node indices of dead ones ("late": before the assertions, "mid": between them, "query": by a query)
+    if spec["sweep"] == "late":
+        SymbolGraph().remove_dead_instances()
+        C["late_sweeps"] += 1
+    elif spec["sweep"] == "query":
+        census(om, named, C)
+        C["late_sweeps"] += 1
+    for n, (kind, i, j, k) in enumerate(spec["suffix"]):
+        if spec["sweep"] == "mid" and n == (len(spec["suffix"]) + 1) // 2:
+            SymbolGraph().remove_dead_instances()
+            C["mid_sweeps"] += 1
         try:
             if apply_op(om, kind, persons, orgs, chiefs, i, j, k, used):
                 n_assert += 1
         except Exception as e:
             errors.append(f"{kind}: {type(e).__name__}: {e}"[:160])
     rel, fields = observe(om, named, SymbolGraph())
+    fields |= {("census",) + t for t in census(om, named, C)}
     if with_prefix and spec["sweep"] == "sweep":
         audit_index(SymbolGraph(), C, problems, "after the suffix")
     return rel, fields, errors, n_assert, (reclaimed, related)
